@@ -196,33 +196,66 @@ func ruleENG1(c *Ctx) {
 			return false
 		}
 		wmOfKB := p.Field("ast", "KnowledgeBase", "WorkingMemory")
-		resets := []struct {
+		type resetSpec struct {
 			name string
-			is   func(ci ssa.CallInstruction) bool
-		}{
-			{"Evaluated (whole memo cleared on knowledge.WorkingMemory)", func(ci ssa.CallInstruction) bool {
+			is   func(ci ssa.CallInstruction, kb, dc ssa.Value) bool
+		}
+		resets := []resetSpec{
+			{"Evaluated (whole memo cleared on knowledge.WorkingMemory)", func(ci ssa.CallInstruction, kb, dc ssa.Value) bool {
 				if !isBulk(ci) || len(bulks) == 0 {
 					return false
 				}
 				f, base := fieldLoad(ci.Common().Args[0])
-				return f == wmOfKB && base == ssa.Value(kb)
+				return f == wmOfKB && base == kb
 			}},
-			{"Retracted (all rules un-retracted on the call's knowledge base)", func(ci ssa.CallInstruction) bool {
-				return len(retReset) > 0 && isRetReset(ci) && unspill(ci.Common().Args[0]) == ssa.Value(kb)
+			{"Retracted (all rules un-retracted on the call's knowledge base)", func(ci ssa.CallInstruction, kb, dc ssa.Value) bool {
+				return len(retReset) > 0 && isRetReset(ci) && unspill(ci.Common().Args[0]) == kb
 			}},
-			{"DataContext (InitializeContext with the call's data context)", func(ci ssa.CallInstruction) bool {
+			{"DataContext (InitializeContext with the call's data context)", func(ci ssa.CallInstruction, kb, dc ssa.Value) bool {
 				if initCtx == nil || !matchStatic(initCtx)(ci) {
 					return false
 				}
 				args := ci.Common().Args
-				return len(args) == 2 && unspill(args[0]) == ssa.Value(kb) && unspill(args[1]) == ssa.Value(dc)
+				return len(args) == 2 && unspill(args[0]) == kb && unspill(args[1]) == dc
 			}},
+		}
+		// passes: the call performs the reset itself, or is a module helper (depth <= 2) that performs it on every path
+		// for the knowledge base / data context handed to it (P9: wrapper summary, so that extracting the shared
+		// prologue of the two entry points into a helper does not alarm).
+		var passes func(ci ssa.CallInstruction, r resetSpec, kbv, dcv ssa.Value, depth int) bool
+		passes = func(ci ssa.CallInstruction, r resetSpec, kbv, dcv ssa.Value, depth int) bool {
+			if r.is(ci, kbv, dcv) {
+				return true
+			}
+			callee := ci.Common().StaticCallee()
+			if depth >= 2 || callee == nil || !fnInModule(callee) || callee.Blocks == nil || callee == a.reEval || callee == a.reExec {
+				return false
+			}
+			var kb2, dc2 ssa.Value
+			for i, arg := range ci.Common().Args {
+				if i >= len(callee.Params) {
+					break
+				}
+				if unspill(arg) == kbv {
+					kb2 = callee.Params[i]
+				}
+				if unspill(arg) == dcv {
+					dc2 = callee.Params[i]
+				}
+			}
+			if kb2 == nil {
+				return false
+			}
+			return mustPass(callee, func(in ssa.Instruction) bool {
+				c2, ok := in.(ssa.CallInstruction)
+				return ok && passes(c2, r, kb2, dc2, depth+1)
+			})
 		}
 		for _, r := range resets {
 			construct := fmt.Sprintf("%s / resets %s", fnName(ep), r.name)
 			t, path := reach(ep, nil, isE, func(in ssa.Instruction) bool {
 				ci, ok := in.(ssa.CallInstruction)
-				return ok && r.is(ci)
+				return ok && passes(ci, r, kb, dc, 0)
 			}, nil)
 			if t != nil {
 				c.Fail(construct, p.InstrPos(t), "the first rule evaluation can be reached without this reset: state of an earlier call on the same instance leaks into this one", pathString(p, path)...)
